@@ -435,6 +435,148 @@ def tmpl_param_op(rng, n):
                           {"relation": rel, "anonymous": anon, "opsA": len(opsA), "opsB": len(opsB), "used": g[0]})
 
 
+# ------------------------------------------------------------------ shape-systematic templates
+# Every modelled catalogue fault planted in EVERY position class of a small grammar (not sampled: the grid is
+# enumerated), each with a well-typed twin that must compile.  The mutant catalogue of the oracle only plants a
+# fault where the generator happens to have put an eligible node; this grid does not depend on the generator.
+
+S_TY = {
+    "MI": {"lit": ["(3@MI)", "(8@MI)"], "idf": "idm", "glob": ["gm", "hm"]},
+    "BI": {"lit": ["(5@BI)", "(9@BI)"], "idf": "idi", "glob": ["gi", "hi"]},
+    "Boolean": {"lit": ["true", "false"], "idf": "idb", "glob": ["gb", "hb"]},
+    "String": {"lit": ['"s"', '"t"'], "idf": "ids", "glob": ["gs", "hs"]},
+}
+S_HELPERS = ["BI ==> Integer;\n"] + \
+    ["%s: %s := %s;\n" % (g, t, d["lit"][i]) for t, d in S_TY.items() for i, g in enumerate(d["glob"])] + \
+    ["%s(x: %s): %s == x;\n" % (d["idf"], t, t) for t, d in S_TY.items()]
+S_PT = ["MI", "String", "Boolean", "BI"]                     # parameter types of k1 .. k4
+S_KDEFS = ["k%d(%s): MI == (7@MI);\n" % (n, ", ".join("p%d: %s" % (i + 1, S_PT[i]) for i in range(n))) for n in range(1, 5)]
+S_FORMS = ["identifier", "literal", "call", "if-expression"]
+
+
+def s_expr(t, form, a=None, b=None, c="gb"):
+    """An expression of type t in one of the four argument forms (a, b: identifiers of type t)."""
+    d = S_TY[t]
+    a = a or d["glob"][0]
+    b = b or d["glob"][1]
+    return {"identifier": a, "literal": d["lit"][0], "call": "%s(%s)" % (d["idf"], a),
+            "if-expression": "(if %s then %s else %s)" % (c, a, b)}[form]
+
+
+def s_case(kind, shape, pre, good_form, bad_form, tail, params, extra_range_forms=()):
+    forms_g = S_HELPERS + pre + [good_form] + tail
+    forms_b = S_HELPERS + pre + [bad_form] + tail
+    k = len(S_HELPERS) + len(pre)
+    c = _forms_to_case(kind, forms_g, forms_b, k, dict(params, shape=shape))
+    line = PRELUDE.count("\n")
+    for i, f in enumerate(forms_b):
+        n = f.count("\n")
+        if i in extra_range_forms:
+            c["ranges"].append((line + 1, line + n))
+        line += n
+    return c
+
+
+def s_return_bodies(w):
+    d = S_TY[w]
+    l1, l2, f = d["lit"][0], d["lit"][1], d["idf"]
+    return {
+        "identifier": "a", "literal": l1, "call": "%s(a)" % f,
+        "if:identifier/identifier": "if c then a else b",
+        "if:literal/literal": "if c then %s else %s" % (l1, l2),
+        "if:call/call": "if c then %s(a) else %s(b)" % (f, f),
+        "if:identifier/literal": "if c then a else %s" % l2,
+        "if:identifier/call": "if c then a else %s(b)" % f,
+        "if:parenthesised": "(if c then a else b)",
+        "if:braced": "{\n    if c then a else b\n}",
+        "sequence-with-exit": "{\n    c => a;\n    b\n}",
+        "sequence-with-exit:literal": "{\n    c => %s;\n    b\n}" % l1,
+        "nested-if": "if c then (if c then a else b) else b",
+        "if-else-if": "if c then a else if c then b else a",
+        "loop-then-value": "{\n    for i: MI in (1@MI)..(2@MI) repeat {\n    };\n    a\n}",
+        "local-then-value": "{\n    l: %s := a;\n    l\n}" % w,
+        "return-then-value": "{\n    if c then return a;\n    b\n}",
+    }
+
+
+def shape_cases():
+    cases = []
+    # ---- wrong return type: value type w, declared result r
+    for w, r in [("MI", "String"), ("String", "MI"), ("MI", "Boolean"), ("Boolean", "String"), ("BI", "MI"), ("MI", "BI")]:
+        a0 = S_TY[w]["glob"][0]
+        a1 = S_TY[w]["glob"][1]
+        for shape, body in s_return_bodies(w).items():
+            def fn(res):
+                return "h(a: %s, b: %s, c: Boolean): %s == %s%s\n" % (w, w, res, body, "" if body.endswith("}") else ";")
+            cases.append(s_case("shape:wrong-return-type", shape, [], fn(w), fn(r),
+                                ["stdout << h(%s, %s, gb) << newline;\n" % (a0, a1)], {"value": w, "declared": r}))
+    # ---- wrong argument type / wrong arity: every position of k1..k4, every argument form, two contexts
+    def call_forms(n, args, ctx):
+        call = "k%d(%s)" % (n, ", ".join(args))
+        if ctx == "top-level":
+            return "stdout << %s << newline;\n" % call
+        return "w(): MI == %s;\n" % call
+    for ctx in ("top-level", "function-body"):
+        for n in range(1, 5):
+            right = [S_TY[S_PT[i]]["glob"][0] for i in range(n)]
+            for j in range(n):
+                for form in S_FORMS:
+                    for wt in [t for t in S_TY if t != S_PT[j]][:2]:
+                        good = right[:j] + [s_expr(S_PT[j], form)] + right[j + 1:]
+                        bad = right[:j] + [s_expr(wt, form)] + right[j + 1:]
+                        cases.append(s_case("shape:wrong-argument-type", "%s/position-%d-of-%d/%s" % (ctx, j + 1, n, form),
+                                            S_KDEFS, call_forms(n, good, ctx), call_forms(n, bad, ctx), [],
+                                            {"expected": S_PT[j], "given": wt}))
+                # arity: argument j dropped
+                cases.append(s_case("shape:wrong-arity", "%s/dropped-%d-of-%d" % (ctx, j + 1, n), S_KDEFS,
+                                    call_forms(n, right, ctx), call_forms(n, right[:j] + right[j + 1:], ctx), [], {}))
+            # arity: one argument too many, at every position, in every form
+            for j in range(n + 1):
+                for form in S_FORMS:
+                    cases.append(s_case("shape:wrong-arity", "%s/extra-at-%d-of-%d/%s" % (ctx, j + 1, n, form), S_KDEFS,
+                                        call_forms(n, right, ctx),
+                                        call_forms(n, right[:j] + [s_expr("MI", form)] + right[j:], ctx), [], {}))
+    # ---- undefined name: a variable (zz9) or a function (zf9) in every position class
+    und = {
+        "function-body:value": "u(): MI == %s;\n",
+        "function-body:local-initialiser": "u(): MI == {\n    l: MI := %s;\n    l\n}\n",
+        "function-body:loop-body": "u(): MI == {\n    l: MI := gm;\n    for i: MI in gm..hm repeat {\n        l := %s;\n    };\n    l\n}\n",
+        "function-body:if-condition": "u(): MI == if (%s > gm) then gm else hm;\n",
+        "function-body:exit-condition": "u(): MI == {\n    (%s > gm) => gm;\n    hm\n}\n",
+        "top-level:print": "stdout << %s << newline;\n",
+        "top-level:initialiser": "v9: MI := %s;\n",
+        "top-level:loop-body": "for i: MI in gm..hm repeat {\n    hm := %s;\n};\n",
+        "top-level:while-condition": "while (%s > hm) repeat {\n    hm := hm + gm;\n};\n",
+        "top-level:if-condition": "if (%s > gm) then {\n    stdout << gm << newline;\n};\n",
+        "top-level:call-argument": "stdout << k2(%s, gs) << newline;\n",
+        "nested-expression": "stdout << idm((if gb then (gm + (%s * hm)) else hm)) << newline;\n",
+        "nested-if-condition": "stdout << (if (if (%s > gm) then gb else hb) then gm else hm) << newline;\n",
+    }
+    for shape, tpl in und.items():
+        for what, bad, good in (("variable", "zz9", "gm"), ("function", "zf9(gm)", "idm(gm)")):
+            cases.append(s_case("shape:undefined-name", shape + "/" + what, S_KDEFS, tpl % good, tpl % bad, [], {}))
+    # ---- assignment to a constant (twin: the same name declared as a variable)
+    for t, d in S_TY.items():
+        v = d["glob"][0]
+        asg = {
+            "top-level": "kc := %s;\n" % d["lit"][1],
+            "top-level:loop-body": "for i: MI in gm..hm repeat {\n    kc := %s;\n};\n" % v,
+            "top-level:if-body": "if gb then {\n    kc := %s;\n};\n" % v,
+            "function-body:free": "u(): MI == {\n    free kc;\n    kc := %s;\n    gm\n}\n" % v,
+            "function-body:loop-body:free": "u(): MI == {\n    free kc;\n    for i: MI in gm..hm repeat {\n        kc := %s;\n    };\n    gm\n}\n" % v,
+        }
+        for shape, form in asg.items():
+            good_pre = ["kc: %s := %s;\n" % (t, d["lit"][0])]
+            bad_pre = ["kc: %s == %s;\n" % (t, d["lit"][0])]
+            forms_g = S_HELPERS + good_pre + [form]
+            forms_b = S_HELPERS + bad_pre + [form]
+            c = _forms_to_case("shape:assign-to-constant", forms_g, forms_b, len(S_HELPERS) + 1, {"type": t, "shape": shape})
+            line = PRELUDE.count("\n") + sum(f.count("\n") for f in S_HELPERS)
+            c["ranges"].append((line + 1, line + 1))          # the constant's definition: the pair is the fault
+            cases.append(c)
+    return cases
+
+
 TEMPLATES = {"missing-category-export": tmpl_missing_export, "operation-not-in-parameter-category": tmpl_param_op}
 
 
@@ -497,16 +639,21 @@ def run(rep, tier):
 
     # ---- 1. templates: the two catalogue entries without a Coq model
     n_t = 40 if quick else 400
-    cases = template_cases(C.rng("c06-templates"), n_t)
+    cases = template_cases(C.rng("c06-templates"), n_t) + shape_cases()
 
     def run_case(c):
         return c, compile_src(aldor, c["good"], base), compile_src(aldor, c["bad"], base)
     t_stats = collections.Counter()
+    shape_classes = set()
     with concurrent.futures.ThreadPoolExecutor(C.NCPU) as ex:
         for c, rg, rb in ex.map(run_case, cases):
             cg, cb = judge_accept(rg), judge_reject(rb, c["ranges"])
             t_stats[(c["kind"], "twin-accepted" if cg is None else "twin:" + cg)] += 1
             t_stats[(c["kind"], "fault-rejected" if cb is None else "fault:" + cb)] += 1
+            if c["kind"].startswith("shape:"):
+                shape_classes.add((c["kind"], c["params"].get("shape", "").split("/")[0]))
+            if c["kind"].startswith("shape:"):
+                c = dict(c, kind=c["kind"] + " " + c["params"].get("shape", ""))
             if cg:
                 viol.append(("template %s: well-typed twin: %s" % (c["kind"], cg),
                              _replay("accept", c["good"], None, rg, {"template": c["kind"], "params": c["params"]}),
@@ -650,6 +797,8 @@ def run(rep, tier):
                     "candidate_sites": dict(sites_cand), "eligible_sites": dict(sites_elig), "sites_run": dict(sites_run),
                     "outcomes": dict(st), "outcomes_per_kind": {"%s/%s" % k: v for k, v in sorted(kinds.items())},
                     "templates": {"%s/%s" % k: v for k, v in sorted(t_stats.items())},
+                    "shape_grid": {"cases": sum(1 for c in cases if c["kind"].startswith("shape:")),
+                                   "position_classes": sorted("%s %s" % k for k in shape_classes)},
                     "feature_mix(programs containing)": dict(feat.most_common(40)),
                     "corpus_entries": n_corpus},
                 timings_s={"proof+build": round(t_build, 1), "templates": round(t_templates, 1), "generated": round(t_run, 1)})
@@ -664,6 +813,9 @@ def run(rep, tier):
         "and names only (Mut.v), which is what makes the oracle's reason for rejection one of Aldor's rules",
         "the two template kinds (missing category export, operation not in the parameter's category) have no Coq model: "
         "hand-written parametrised templates with a well-typed twin, validated against the compiler only",
+        "the shape grid (shape_cases: wrong return type x 17 body shapes, wrong argument type / arity x every position of 1..4 "
+        "x 4 argument forms x 2 contexts, undefined name x 13 positions, assignment to a constant x 5 positions) is enumerated "
+        "in python with a well-typed twin per case; it has no Coq model either and does not depend on the generator",
         "ambiguous-overload: the second definition alone is legal Aldor; the error is expected at the appended use (last line) "
         "or in the second definition",
         "programs are compiled against the PRE-BUILT libaldor (.al) of /repo; the compiler itself is built from the current tree",
